@@ -81,6 +81,71 @@ type queueCtx struct {
 	p    *core.Program
 	fi   *core.FuncInfo
 	recv string
+	// preset: boolean parameters of fi fixed to constants (a helper judged for one call site)
+	preset map[types.Object]bool
+	depth  int
+}
+
+// noWaitGet: call is a same-receiver method call that, with the constant booleans it is given, is a
+// get that never waits: no path of the callee reaches Wait(), some path removes the head, every other
+// returns nil (take(false) standing for GetNoWait()).
+func (q *queueCtx) noWaitGet(call *ast.CallExpr) bool {
+	if q.depth > 1 {
+		return false
+	}
+	info := q.fi.Pkg.TypesInfo
+	sel, ok := call.Fun.(*ast.SelectorExpr)
+	if !ok {
+		return false
+	}
+	if id, ok := ast.Unparen(sel.X).(*ast.Ident); !ok || id.Name != q.recv {
+		return false
+	}
+	fn, _ := info.Uses[sel.Sel].(*types.Func)
+	if fn == nil {
+		return false
+	}
+	cf := q.p.FuncOf(fn)
+	if cf == nil || cf.Decl.Body == nil || cf == q.fi {
+		return false
+	}
+	if rt := core.RecvNamed(cf.Obj); rt == nil || core.RecvNamed(q.fi.Obj) == nil || rt.Obj() != core.RecvNamed(q.fi.Obj).Obj() {
+		return false
+	}
+	if res := cf.Obj.Type().(*types.Signature).Results(); res.Len() != 1 {
+		return false
+	}
+	preset := map[types.Object]bool{}
+	k := 0
+	for _, f := range cf.Decl.Type.Params.List {
+		for _, nm := range f.Names {
+			if k < len(call.Args) {
+				if tv, ok := info.Types[call.Args[k]]; ok && tv.Value != nil && tv.Value.Kind() == constant.Bool {
+					preset[cf.Pkg.TypesInfo.Defs[nm]] = constant.BoolVal(tv.Value)
+				} else {
+					return false
+				}
+			}
+			k++
+		}
+	}
+	cq := &queueCtx{p: q.p, fi: cf, recv: recvName(cf), preset: preset, depth: q.depth + 1}
+	ps, over := paths.Enumerate(cf.Decl.Body, cq.config())
+	if over || len(ps) == 0 {
+		return false
+	}
+	removes := 0
+	for _, pa := range ps {
+		if pa.Has("WAIT") {
+			return false
+		}
+		if pa.Has("REMOVEFIRST") {
+			removes++
+		} else if !pa.HasArg("RETVAL", "nil") {
+			return false
+		}
+	}
+	return removes > 0
 }
 
 func (q *queueCtx) norm(e ast.Expr) string {
@@ -119,6 +184,14 @@ func (q *queueCtx) norm(e ast.Expr) string {
 			if nm := sel.Sel.Name; len(nm) > 0 && nm[len(nm)-1] >= '0' && nm[len(nm)-1] <= '9' {
 				digit = nm[len(nm)-1:]
 			}
+			// the lane number may sit on the record that groups a lane's fields (this.lane1.queue)
+			for up := inner; digit == "" && up != nil; {
+				if nm := up.Sel.Name; len(nm) > 0 && nm[len(nm)-1] >= '0' && nm[len(nm)-1] <= '9' {
+					digit = nm[len(nm)-1:]
+				}
+				nx, _ := ast.Unparen(up.X).(*ast.SelectorExpr)
+				up = nx
+			}
 			t := fv.Type()
 			if pt, ok := t.(*types.Pointer); ok {
 				t = pt.Elem()
@@ -127,6 +200,13 @@ func (q *queueCtx) norm(e ast.Expr) string {
 				repl[types.ExprString(sel)] = q.recv + ".queue" + digit
 			} else if b, ok := t.Underlying().(*types.Basic); ok && b.Info()&types.IsInteger != 0 && strings.Contains(strings.ToLower(sel.Sel.Name), "capacity") {
 				repl[types.ExprString(sel)] = q.recv + ".capacity" + digit
+			} else if _, isFn := t.Underlying().(*types.Signature); isFn {
+				ln := strings.ToLower(sel.Sel.Name)
+				for _, role := range []string{"failed", "overflowed"} {
+					if strings.HasPrefix(ln, role) {
+						repl[types.ExprString(sel)] = q.recv + "." + role + digit
+					}
+				}
 			}
 			return true
 		})
@@ -155,6 +235,22 @@ func (q *queueCtx) config() paths.Config {
 		Inline: in.Body,
 		Expand: in.Expand,
 		Unroll: in.FixedList,
+		Fold: func(c ast.Expr) (bool, bool) {
+			if len(q.preset) == 0 {
+				return false, false
+			}
+			neg := false
+			e := ast.Unparen(c)
+			if u, ok := e.(*ast.UnaryExpr); ok && u.Op == token.NOT {
+				neg, e = true, ast.Unparen(u.X)
+			}
+			if id, ok := e.(*ast.Ident); ok {
+				if val, ok := q.preset[info.ObjectOf(id)]; ok {
+					return true, val != neg
+				}
+			}
+			return false, false
+		},
 		Cond: func(c ast.Expr, v bool) *paths.Event {
 			return &paths.Event{Kind: "COND", Arg: condKey(info, q.norm, c, v), Pos: c.Pos()}
 		},
@@ -246,6 +342,17 @@ func (q *queueCtx) config() paths.Config {
 						return true
 					}
 					lname := strings.ToLower(name)
+					// a callback kept in a lane record (this.lane1.overflowed(o)) carries the lane's number
+					if root := rootOf(sel.X); root != nil && root.Name == q.recv {
+						if _, isId := ast.Unparen(sel.X).(*ast.Ident); !isId {
+							if _, isFn := info.TypeOf(sel).Underlying().(*types.Signature); isFn {
+								if nn := q.norm(sel); strings.HasPrefix(nn, "failed") || strings.HasPrefix(nn, "overflowed") {
+									lname = strings.ToLower(nn)
+									sel = &ast.SelectorExpr{X: root, Sel: sel.Sel}
+								}
+							}
+						}
+					}
 					if id, ok := ast.Unparen(sel.X).(*ast.Ident); ok && id.Name == q.recv {
 						switch {
 						case strings.HasPrefix(lname, "failed"):
@@ -256,7 +363,7 @@ func (q *queueCtx) config() paths.Config {
 								arg = q.norm(v.Args[0])
 							}
 							out = append(out, paths.Event{Kind: "OVERFLOWED", Arg: strings.TrimPrefix(lname, "overflowed") + ":" + arg, Pos: v.Pos()})
-						case name == "GetNoWait":
+						case name == "GetNoWait" || q.noWaitGet(v):
 							out = append(out, paths.Event{Kind: "GETNOWAIT", Pos: v.Pos()})
 						}
 					}
